@@ -100,6 +100,13 @@ TARGETS = [
     ('CoordinateShift_to_stim', 'qce_circuit.addon_stim.circuit_operations', 'CoordinateShiftOperation', 'to_stim_instruction'),
     # --- C16: acceptance of simultaneous gates
     ('Gen_get_mutually_allowed', 'qce_circuit.connectivity.mapping.gate_sequence_generator', 'GateSequenceGenerator', 'get_mutually_allowed'),
+    # --- C16: frequency ordering, moving side of a gate
+    ('Freq_is_equal_to', 'qce_circuit.connectivity.intrf_connectivity_surface_code', 'FrequencyGroupIdentifier', 'is_equal_to'),
+    ('Freq_is_higher_than', 'qce_circuit.connectivity.intrf_connectivity_surface_code', 'FrequencyGroupIdentifier', 'is_higher_than'),
+    ('Freq_is_lower_than', 'qce_circuit.connectivity.intrf_connectivity_surface_code', 'FrequencyGroupIdentifier', 'is_lower_than'),
+    ('Conn_on_moving_side', 'qce_circuit.connectivity.connectivity_surface_code', None, 'on_moving_side'),
+    ('Conn_get_higher_frequency_qubit_id', 'qce_circuit.connectivity.connectivity_surface_code', None, 'get_higher_frequency_qubit_id'),
+    ('Conn_get_lower_frequency_qubit_id', 'qce_circuit.connectivity.connectivity_surface_code', None, 'get_lower_frequency_qubit_id'),
     # --- C18: row order of the drawing
     ('Draw_reorder_indices', 'qce_circuit.visualization.visualize_circuit.display_circuit', None, 'reorder_indices'),
     # --- C19: identifiers
@@ -111,6 +118,7 @@ TARGETS = [
 
 NUMPY_NAMES = {'np', 'numpy'}
 MODULE_NAMES = {'stim', 'warnings'}
+MODULE_FUNCTIONS: dict = {}    # top-level functions of the module being translated: name -> parameter names
 
 
 def lstr(s: str) -> str:
@@ -211,6 +219,19 @@ def expr(e: ast.AST) -> str:
                 return f'.call "isinstance" {llist([expr(e.args[0]), ".str " + lstr(e.args[1].id)])}'
             if e.func.id[:1].isupper():
                 return f'.call {lstr(e.func.id)} {llist(tagged)}'
+            if e.keywords and e.func.id in MODULE_FUNCTIONS:
+                # a function of the same module called with keywords: bind them by the callee's signature (the written order of
+                # keywords means nothing in Python); a keyword that is not a parameter, or a gap, is outside the fragment
+                params = MODULE_FUNCTIONS[e.func.id]
+                bound = {p: expr(a) for p, a in zip(params, e.args)}
+                for k in e.keywords:
+                    if k.arg not in params or k.arg in bound:
+                        return unsupported_e(e)
+                    bound[k.arg] = expr(k.value)
+                n = len(bound)
+                if params is None or any(p not in bound for p in params[:n]):
+                    return unsupported_e(e)
+                return f'.call {lstr(e.func.id)} {llist([bound[p] for p in params[:n]])}'
             return f'.call {lstr(e.func.id)} {llist(args)}'
         if isinstance(e.func, ast.Attribute):
             if isinstance(e.func.value, ast.Name) and (e.func.value.id in MODULE_NAMES or
@@ -345,6 +366,10 @@ def translate(lean_name: str, module: str, cls: str | None, fn: str, cache: dict
     else:
         params = [x.arg for x in a.args]
     LOCAL_LISTS.clear()
+    MODULE_FUNCTIONS.clear()
+    for n in tree.body:
+        if isinstance(n, ast.FunctionDef) and not (n.args.vararg or n.args.kwarg or n.args.kwonlyargs or n.args.posonlyargs):
+            MODULE_FUNCTIONS[n.name] = [x.arg for x in n.args.args]
     for n in ast.walk(f):
         tgt = None
         if isinstance(n, ast.AnnAssign) and isinstance(n.target, ast.Name):
